@@ -6,6 +6,14 @@ package blocks
 // and a direct oracle written from the property texts scans the same observations.  The expected balance
 // movements / destroyed amounts of every generated transaction come from the reference interpreter of
 // script_test.go (EVM semantics of value transfer, CREATE/CREATE2, REVERT, SELFDESTRUCT), never from the code under test.
+//
+// Every denomination (C04): the universe holds coins of the chain's other denominations (utwo, uthree, ufour) as well:
+// Cosmos bank sends inside the blocks and mints between the blocks put them on wallets, living and destroyed contracts,
+// passive beneficiaries and, above all, on the PREDICTABLE addresses at which the block's transactions create contracts
+// (CREATE address of (sender, nonce), first child frame, CREATE2 addresses of the factory).  The reference interpreter
+// says which accounts a successful execution deletes; the oracle states per transaction and per denomination:
+// supply change = -(balances of the deleted accounts), every other account keeps its balance (bank events), and per
+// block the same from the committed balances and supplies.  The Coq model is coq/Model/TxPipeDenom.v.
 
 import (
 	"crypto/sha256"
@@ -59,6 +67,19 @@ var (
 	rtStore = []byte{0x60, 0x00, 0x35, 0x80, 0x60, 0xf8, 0x1c, 0x90, 0x60, 0xf0, 0x1c, 0x60, 0xff, 0x16, 0x5b, 0x81, 0x15, 0x60, 0x20, 0x57, 0x80, 0x82, 0x55, 0x90, 0x60, 0x01, 0x90, 0x03, 0x90, 0x60, 0x0e, 0x56, 0x5b, 0x00}
 )
 
+// denominations other than the EVM one that the chain knows (utwo, uthree: genesis; ufour: minted by the harness
+// before the first case, like an IBC voucher); Coq index = position + 1, the EVM denomination is 0
+var otherDenoms = []string{"utwo", "uthree", "ufour"}
+
+func denomID(d string) int64 {
+	for i, x := range otherDenoms {
+		if x == d {
+			return int64(i + 1)
+		}
+	}
+	return -1
+}
+
 type kind int
 
 const (
@@ -84,7 +105,7 @@ var kindNames = []string{"transfer", "call-sink", "call-revert", "call-invalid",
 	"create-ok", "create-fail", "deploy-K", "factory-create2", "script", "cosmos-send"}
 
 // relative frequencies of the kinds
-var kindWeights = []int{8, 5, 5, 4, 7, 6, 8, 8, 3, 6, 4, 7, 5, 20, 8}
+var kindWeights = []int{8, 5, 5, 4, 7, 6, 8, 8, 3, 6, 4, 7, 5, 20, 14}
 
 // malformations of the C06 stream
 const (
@@ -128,6 +149,7 @@ type world struct {
 	kHash                                           common.Hash
 	kAlive                                          map[common.Address]bool // instances of rtK alive in the committed state
 	evmModule                                       common.Address
+	foreignOnly                                     []common.Address // code-less accounts (sequence 0) that hold other denominations and no EVM coins: not empty, must survive a touch
 }
 
 func (w *world) id(a common.Address) int64 {
@@ -243,8 +265,106 @@ func newWorld(t *testing.T) *world {
 	for s := uint64(0); s < nSalts; s++ {
 		w.core = append(w.core, c2Address(w.factory, s))
 	}
+	// other denominations: every wallet owns all of them; some contracts, future CREATE2 addresses and passive
+	// beneficiaries hold them from the start
+	for i, x := range w.wallets {
+		a := sdk.AccAddress(x.GetEthAddress().Bytes())
+		c.Fund(a, "ufour", big.NewInt(int64(1_000_000_000+i)))
+		if i == 5 {
+			c.Fund(a, "utwo", pow10(12))
+			c.Fund(a, "uthree", pow10(12))
+		}
+	}
+	for i, a := range w.ks {
+		c.Fund(sdk.AccAddress(a.Bytes()), otherDenoms[i%len(otherDenoms)], big.NewInt(int64(1000+i)))
+		if i%2 == 0 {
+			c.Fund(sdk.AccAddress(a.Bytes()), otherDenoms[(i+1)%len(otherDenoms)], big.NewInt(int64(50+i)))
+		}
+	}
+	c.Fund(sdk.AccAddress(c2Address(w.factory, 0).Bytes()), "utwo", big.NewInt(31))
+	c.Fund(sdk.AccAddress(c2Address(w.factory, 1).Bytes()), "ufour", big.NewInt(47))
+	c.Fund(sdk.AccAddress(w.bens[0].Bytes()), "uthree", big.NewInt(5)) // holds nothing else: not empty, although its EVM balance is zero
 	c.RunBlock(nil)
 	return w
+}
+
+// recipient of a bank send of other denominations: wherever a later Ethereum transaction will create, destroy or touch
+func (w *world) pickBankRecipient(r *Rng, pending map[common.Address]uint64) common.Address {
+	wallet := func() common.Address { return w.wallets[r.Intn(len(w.wallets))].GetEthAddress() }
+	switch r.Intn(14) {
+	case 0, 1:
+		return wallet()
+	case 2, 3, 4, 5: // the address of a coming creation of some wallet
+		x := wallet()
+		return crypto.CreateAddress(x, w.localNonce(pending, x)+uint64(r.Intn(3)))
+	case 6: // the first child frame of such a creation (a new contract's nonce starts at 1)
+		x := wallet()
+		return crypto.CreateAddress(crypto.CreateAddress(x, w.localNonce(pending, x)+uint64(r.Intn(2))), 1)
+	case 7, 8:
+		return c2Address(w.factory, uint64(r.Intn(nSalts)))
+	case 9, 10:
+		return w.pickK(r)
+	case 11:
+		return w.bens[r.Intn(len(w.bens))]
+	case 12:
+		return []common.Address{w.sink, w.store, w.factory, w.logger, w.reverter}[r.Intn(5)]
+	default:
+		if r.Chance(25) {
+			return feeCollector() // a blocked address: the bank refuses
+		}
+		return w.freshAddr(r)
+	}
+}
+
+// between blocks: mint other denominations straight to addresses the coming block creates, destroys or touches
+func (w *world) prefund(r *Rng, gen []*genTx, count func(string)) {
+	var cand []common.Address
+	seen := map[common.Address]bool{feeCollector(): true, w.evmModule: true}
+	for _, g := range gen {
+		if !g.isEth {
+			continue
+		}
+		for _, a := range g.addrs {
+			if !seen[a] && !w.eoa[a] {
+				seen[a] = true
+				cand = append(cand, a)
+			}
+		}
+	}
+	if len(cand) == 0 {
+		return
+	}
+	// the addresses at which the block creates contracts: top-level frames, their first child frame, CREATE2 instances
+	var targets []common.Address
+	for _, g := range gen {
+		if !g.isEth || g.inadm != "" {
+			continue
+		}
+		if g.create {
+			f := crypto.CreateAddress(g.from, g.nonce)
+			targets = append(targets, f)
+			if g.scr != nil {
+				targets = append(targets, crypto.CreateAddress(f, 1))
+				for _, o := range g.scr.ops {
+					if o.kind == sC2 {
+						targets = append(targets, c2Address(w.factory, o.salt))
+					}
+				}
+			}
+		} else if g.to != nil && *g.to == w.factory && len(g.data) == 32 {
+			targets = append(targets, c2Address(w.factory, new(big.Int).SetBytes(g.data).Uint64()))
+		}
+	}
+	for n := 1 + r.Intn(4); n > 0; n-- {
+		a := cand[r.Intn(len(cand))]
+		if len(targets) > 0 && r.Chance(60) {
+			a = targets[r.Intn(len(targets))]
+		}
+		for m := 1 + r.Intn(2); m > 0; m-- {
+			w.c.Fund(sdk.AccAddress(a.Bytes()), otherDenoms[r.Intn(len(otherDenoms))], big.NewInt(int64(1+r.Intn(5000))))
+		}
+		count("setup:prefund-other-denoms")
+	}
 }
 
 // ---------------------------------------------------------------- generated transactions
@@ -264,6 +384,7 @@ type genTx struct {
 	Script     string `json:"script,omitempty"`
 	Raw        string `json:"raw_tx,omitempty"`
 	AccessList int    `json:"access_list_entries,omitempty"`
+	Sends      []bankSend `json:"bank_sends,omitempty"` // Cosmos bank MsgSend coins, in execution order
 
 	raw    []byte
 	coqT   string // Coq term mkTx ...
@@ -286,6 +407,16 @@ type genTx struct {
 	cosmosSeq uint64
 }
 
+// one coin of a bank MsgSend of a Cosmos transaction
+type bankSend struct {
+	Msg    int    `json:"msg"`
+	Denom  string `json:"denom"`
+	To     string `json:"to"`
+	Amount string `json:"amount"`
+	to     common.Address
+	amt    *big.Int
+}
+
 type obsTx struct {
 	Class    string // DROPPED REJ FAILED EXEC_OK EXEC_VMERR
 	Code     uint32
@@ -306,6 +437,9 @@ type obsTx struct {
 	minted     *big.Int
 	burned     *big.Int
 	ethTxEvent bool
+	// the same for every other denomination
+	fdelta           map[string]map[common.Address]*big.Int
+	fminted, fburned coins
 }
 
 func (w *world) localNonce(pending map[common.Address]uint64, a common.Address) uint64 {
@@ -416,6 +550,9 @@ func (w *world) pickBenef(r *Rng, target, sender common.Address) (b common.Addre
 	case 7:
 		return c2Address(w.factory, uint64(r.Intn(nSalts))), false
 	default:
+		if len(w.foreignOnly) > 0 && r.Chance(40) {
+			return w.foreignOnly[r.Intn(len(w.foreignOnly))], false
+		}
 		return w.bens[r.Intn(len(w.bens))], false
 	}
 }
@@ -492,6 +629,9 @@ func (w *world) genScript(r *Rng, depth int, sender common.Address, unit *big.In
 			v := val()
 			if v.Sign() == 0 && t != w.sink && r.Chance(70) {
 				v = new(big.Int).Set(unit)
+			}
+			if len(w.foreignOnly) > 0 && r.Chance(15) { // a zero-value call to an account holding only other denominations
+				t, v = w.foreignOnly[r.Intn(len(w.foreignOnly))], big.NewInt(0)
 			}
 			s.ops = append(s.ops, sop{kind: sFund, target: t, value: v})
 		case 6:
@@ -607,9 +747,16 @@ func (w *world) genBlock(r *Rng, n int) []*genTx {
 	pending := map[common.Address]uint64{}
 	spent := map[common.Address]*big.Int{}
 	var out []*genTx
+	// block template "numbering after a receipt-less transaction" (C13/C05): the first transaction fails after admission
+	// (owns an Ethereum index, leaves no receipt), the next `burst` ones each emit logs
+	burst := -1
+	if n >= 3 && r.Chance(15) {
+		burst = 2 + r.Intn(3)
+	}
 	for i := 0; i < n; i++ {
+		inTemplate := burst >= 0 && i <= burst
 		// replays first: of this very block, of earlier blocks (with priority to txs that failed after admission)
-		if r.Chance(12) {
+		if !inTemplate && r.Chance(12) {
 			var pool []*genTx
 			switch r.Intn(5) {
 			case 0, 1:
@@ -643,6 +790,15 @@ func (w *world) genBlock(r *Rng, n int) []*genTx {
 				mal = mFutureNonce // replays are generated above
 			}
 		}
+		forceUnaffordable, forceLogs := false, false
+		if inTemplate {
+			mal = mNone
+			if i == 0 {
+				k, forceUnaffordable = kTransfer, true
+			} else {
+				k, forceLogs = kLogger, true
+			}
+		}
 		sender := w.wallets[r.Intn(len(w.wallets))]
 		if mal == mContractSender {
 			sender = w.codeWallet
@@ -655,14 +811,13 @@ func (w *world) genBlock(r *Rng, n int) []*genTx {
 
 		if k == kCosmosSend {
 			g.Mal = malNames[mNone]
-			to := w.wallets[r.Intn(len(w.wallets))]
-			amt := int64(1 + r.Intn(1000))
 			seq := w.localNonce(pending, from)
 			useSeq := seq
+			failing := false
 			switch r.Intn(12) {
 			case 0: // the message fails (more than the account owns): fee charged, sequence consumed
 				g.Kind = "cosmos-send-failing"
-				amt = -1
+				failing = true
 			case 1:
 				if seq > 0 {
 					g.Kind, g.Mal = "cosmos-send", "stale-nonce"
@@ -672,21 +827,53 @@ func (w *world) genBlock(r *Rng, n int) []*genTx {
 				g.Kind, g.Mal = "cosmos-send", "future-nonce"
 				useSeq = seq + 1
 			}
-			coin := sdk.NewCoin("utwo", sdkmath.NewInt(1))
-			if amt > 0 {
-				coin = sdk.NewCoin("utwo", sdkmath.NewInt(amt))
-			} else {
-				coin = sdk.NewCoin("utwo", c.App.BankKeeper.GetBalance(ctx, sdk.AccAddress(from.Bytes()), "utwo").Amount.AddRaw(1))
+			// one or two bank sends of one to three other denominations each
+			nMsg := 1
+			if r.Chance(25) {
+				nMsg = 2
 			}
-			msg := banktypes.NewMsgSend(sdk.AccAddress(from.Bytes()), sdk.AccAddress(to.GetEthAddress().Bytes()), sdk.NewCoins(coin))
-			bz, err := w.cosmosTx(sender, useSeq, 200000, new(big.Int).Mul(floor, big.NewInt(2)), msg)
+			var msgs []sdk.Msg
+			set := map[common.Address]bool{from: true}
+			for mi := 0; mi < nMsg; mi++ {
+				to := w.pickBankRecipient(r, pending)
+				if mi == 0 && r.Chance(35) {
+					to = w.wallets[r.Intn(len(w.wallets))].GetEthAddress()
+				}
+				set[to] = true
+				perm := []int{0, 1, 2}
+				for j := 2; j > 0; j-- {
+					q := r.Intn(j + 1)
+					perm[j], perm[q] = perm[q], perm[j]
+				}
+				nd := []int{1, 1, 2, 3}[r.Intn(4)]
+				var cs sdk.Coins
+				for j := 0; j < nd; j++ {
+					d := otherDenoms[perm[j]]
+					amt := sdkmath.NewInt(int64(1 + r.Intn(1000)))
+					if failing && mi == nMsg-1 && j == nd-1 {
+						amt = c.App.BankKeeper.GetBalance(ctx, sdk.AccAddress(from.Bytes()), d).Amount.AddRaw(1)
+					}
+					cs = cs.Add(sdk.NewCoin(d, amt))
+				}
+				for _, coin := range cs { // sorted by denomination: the order x/bank processes them in
+					g.Sends = append(g.Sends, bankSend{Msg: mi, Denom: coin.Denom, To: to.Hex(), Amount: coin.Amount.String(), to: to, amt: coin.Amount.BigInt()})
+				}
+				msgs = append(msgs, banktypes.NewMsgSend(sdk.AccAddress(from.Bytes()), sdk.AccAddress(to.Bytes()), cs))
+			}
+			bz, err := w.cosmosTx(sender, useSeq, 400000, new(big.Int).Mul(floor, big.NewInt(2)), msgs...)
 			require.NoError(w.t, err)
 			if useSeq == seq {
 				pending[from] = seq + 1
 			}
 			g.raw, g.isEth, g.cosmosSeq, g.Nonce = bz, false, useSeq, useSeq
 			g.Raw = hex.EncodeToString(bz)
-			g.addrs = []common.Address{from, to.GetEthAddress()}
+			for a := range set {
+				g.addrs = append(g.addrs, a)
+			}
+			sort.Slice(g.addrs, func(i, j int) bool { return g.addrs[i].Hex() < g.addrs[j].Hex() })
+			for _, a := range g.addrs {
+				w.id(a)
+			}
 			out = append(out, g)
 			continue
 		}
@@ -750,6 +937,9 @@ func (w *world) genBlock(r *Rng, n int) []*genTx {
 				value = new(big.Int).Set(senderBal) // the whole balance: unaffordable once the fee is taken
 			}
 		}
+		if forceUnaffordable {
+			value = new(big.Int).Add(senderBal, big.NewInt(1))
+		}
 		gasExec := uint64(0) // rough execution gas above intrinsic
 		ample := false       // the reference needs the execution to run to completion or to fail at top level
 		switch k {
@@ -766,6 +956,12 @@ func (w *world) genBlock(r *Rng, n int) []*genTx {
 			default:
 				a = c2Address(w.factory, uint64(r.Intn(nSalts)))
 			}
+			if len(w.foreignOnly) > 0 && r.Chance(18) { // touch an account that holds only other denominations
+				a = w.foreignOnly[r.Intn(len(w.foreignOnly))]
+				if r.Chance(65) {
+					value = big.NewInt(0)
+				}
+			}
 			to = &a
 		case kSink:
 			to = &w.sink
@@ -779,6 +975,9 @@ func (w *world) genBlock(r *Rng, n int) []*genTx {
 		case kLogger:
 			to = &w.logger
 			nl := r.Intn(5)
+			if forceLogs && nl == 0 {
+				nl = 1 + r.Intn(3)
+			}
 			data = []byte{byte(nl)}
 			gasExec = 600 + uint64(nl)*600
 			value = big.NewInt(0)
@@ -875,6 +1074,9 @@ func (w *world) genBlock(r *Rng, n int) []*genTx {
 			default:
 				gas = intr + gasExec + uint64(r.Intn(50000))
 			}
+		}
+		if forceLogs {
+			gas = intr + gasExec + 20000
 		}
 		nonce := w.localNonce(pending, from)
 		switch mal {
@@ -998,6 +1200,7 @@ func (w *world) applyRef(st *refState, g *genTx) (consistent bool) {
 	case g.create:
 		frame := crypto.CreateAddress(g.from, g.nonce)
 		st.nonce[frame] = 1
+		st.markCreated(frame)
 		if !st.transfer(g.from, frame, g.value) {
 			consistent = false
 		}
@@ -1016,6 +1219,7 @@ func (w *world) applyRef(st *refState, g *genTx) (consistent bool) {
 		} else {
 			st.transfer(w.factory, ka, g.value)
 			st.isK[ka] = true
+			st.markCreated(ka)
 		}
 	default:
 		if st.get(g.from).Cmp(g.value) < 0 {
@@ -1035,25 +1239,49 @@ func (w *world) applyRef(st *refState, g *genTx) (consistent bool) {
 
 func (w *world) observe(res *abci.ExecTxResult) *obsTx {
 	o := &obsTx{Code: res.Code, GW: res.GasWanted, GU: res.GasUsed, TxIdx: -1, RGas: -1, Cum: -1, LogIdx: -1, Status: -1,
-		delta: map[common.Address]*big.Int{}, minted: big.NewInt(0), burned: big.NewInt(0)}
-	add := func(who string, amt *big.Int) {
+		delta: map[common.Address]*big.Int{}, minted: big.NewInt(0), burned: big.NewInt(0),
+		fdelta: map[string]map[common.Address]*big.Int{}, fminted: coins{}, fburned: coins{}}
+	denom := w.c.Denom()
+	// every coin of a bank event: the EVM denomination into delta/minted/burned, any other one into the f* maps
+	each := func(s string, f func(d string, amt *big.Int)) {
+		cs, err := sdk.ParseCoinsNormalized(s)
+		if err != nil {
+			return
+		}
+		for _, coin := range cs {
+			if !coin.Amount.IsZero() {
+				f(coin.Denom, coin.Amount.BigInt())
+			}
+		}
+	}
+	add := func(who string, sign int64, s string) {
 		acc, err := sdk.AccAddressFromBech32(who)
-		if err != nil || amt.Sign() == 0 {
+		if err != nil {
 			return
 		}
 		a := common.BytesToAddress(acc.Bytes())
-		if o.delta[a] == nil {
-			o.delta[a] = big.NewInt(0)
-		}
-		o.delta[a].Add(o.delta[a], amt)
+		each(s, func(d string, amt *big.Int) {
+			m := o.delta
+			if d != denom {
+				if o.fdelta[d] == nil {
+					o.fdelta[d] = map[common.Address]*big.Int{}
+				}
+				m = o.fdelta[d]
+			}
+			if m[a] == nil {
+				m[a] = big.NewInt(0)
+			}
+			m[a].Add(m[a], new(big.Int).Mul(amt, big.NewInt(sign)))
+		})
 	}
-	denom := w.c.Denom()
-	amountOf := func(s string) *big.Int {
-		coins, err := sdk.ParseCoinsNormalized(s)
-		if err != nil {
-			return big.NewInt(0)
-		}
-		return coins.AmountOf(denom).BigInt()
+	tot := func(evm *big.Int, other coins, s string) {
+		each(s, func(d string, amt *big.Int) {
+			if d == denom {
+				evm.Add(evm, amt)
+			} else {
+				other[d] = new(big.Int).Add(other.get(d), amt)
+			}
+		})
 	}
 	for _, ev := range res.Events {
 		at := EventAttrs(ev)
@@ -1080,18 +1308,28 @@ func (w *world) observe(res *abci.ExecTxResult) *obsTx {
 			o.HasCA = o.CA != ""
 			o.EffPrice = at[evmtypes.AttributeKeyReceiptEffectiveGasPrice]
 		case banktypes.EventTypeCoinSpent:
-			add(at[banktypes.AttributeKeySpender], new(big.Int).Neg(amountOf(at[sdk.AttributeKeyAmount])))
+			add(at[banktypes.AttributeKeySpender], -1, at[sdk.AttributeKeyAmount])
 		case banktypes.EventTypeCoinReceived:
-			add(at[banktypes.AttributeKeyReceiver], amountOf(at[sdk.AttributeKeyAmount]))
+			add(at[banktypes.AttributeKeyReceiver], 1, at[sdk.AttributeKeyAmount])
 		case banktypes.EventTypeCoinMint:
-			o.minted.Add(o.minted, amountOf(at[sdk.AttributeKeyAmount]))
+			tot(o.minted, o.fminted, at[sdk.AttributeKeyAmount])
 		case banktypes.EventTypeCoinBurn:
-			o.burned.Add(o.burned, amountOf(at[sdk.AttributeKeyAmount]))
+			tot(o.burned, o.fburned, at[sdk.AttributeKeyAmount])
 		}
 	}
 	for a, d := range o.delta {
 		if d.Sign() == 0 {
 			delete(o.delta, a)
+		}
+	}
+	for dn, m := range o.fdelta {
+		for a, d := range m {
+			if d.Sign() == 0 {
+				delete(m, a)
+			}
+		}
+		if len(m) == 0 {
+			delete(o.fdelta, dn)
 		}
 	}
 	switch {
@@ -1179,11 +1417,12 @@ type snap struct {
 	base    *big.Int
 	gminDec *big.Int
 	allSup  sdk.Coins // total supply of every denomination
+	fbal    map[common.Address]coins // balances in the other denominations
 }
 
 func (w *world) snapshot(ctx sdk.Context, addrs []common.Address) *snap {
 	s := &snap{addrs: addrs, supply: w.c.Supply(ctx, w.c.Denom()), base: w.c.BaseFee(ctx), bal: map[common.Address]*big.Int{}, seq: map[common.Address]uint64{},
-		exists: map[common.Address]bool{}, code: map[common.Address]common.Hash{}}
+		exists: map[common.Address]bool{}, code: map[common.Address]common.Hash{}, fbal: map[common.Address]coins{}}
 	s.gminDec = w.c.App.FeeMarketKeeper.GetParams(ctx).MinGasPrice.BigInt()
 	w.c.App.BankKeeper.IterateTotalSupply(ctx, func(coin sdk.Coin) bool {
 		s.allSup = s.allSup.Add(coin)
@@ -1191,6 +1430,13 @@ func (w *world) snapshot(ctx sdk.Context, addrs []common.Address) *snap {
 	})
 	for _, a := range addrs {
 		s.bal[a] = w.c.EvmBal(ctx, a)
+		f := coins{}
+		for _, coin := range w.c.App.BankKeeper.GetAllBalances(ctx, sdk.AccAddress(a.Bytes())) {
+			if coin.Denom != w.c.Denom() && !coin.Amount.IsZero() {
+				f[coin.Denom] = coin.Amount.BigInt()
+			}
+		}
+		s.fbal[a] = f
 		s.seq[a] = w.c.Nonce(ctx, a)
 		s.exists[a] = w.c.App.AccountKeeper.GetAccount(ctx, sdk.AccAddress(a.Bytes())) != nil
 		ch := w.c.App.EvmKeeper.GetCodeHash(ctx, a.Bytes())
@@ -1219,6 +1465,22 @@ func (w *world) snapCoq(s *snap, eoaOnly bool) string {
 	return fmt.Sprintf("(mkSnap %s %s %s %s %s %s %s)", CqList(bal), CqList(seq), CqList(exists), CqList(code), CqZ(s.supply), CqZ(s.base), CqZ(s.gminDec))
 }
 
+// the other denominations of a snapshot as a Coq dsnap: balances (all of them, or only the non-zero ones) and supplies
+func (w *world) dsnapCoq(s *snap, all bool) string {
+	var bal, sup []string
+	for _, a := range s.addrs {
+		for _, d := range otherDenoms {
+			if v := s.fbal[a].get(d); all || v.Sign() != 0 {
+				bal = append(bal, fmt.Sprintf("(%s, %s, %s)", CqZi(denomID(d)), w.cqID(a), CqZ(v)))
+			}
+		}
+	}
+	for _, d := range otherDenoms {
+		sup = append(sup, fmt.Sprintf("(%s, %s)", CqZi(denomID(d)), CqZ(s.allSup.AmountOf(d).BigInt())))
+	}
+	return fmt.Sprintf("(mkDSnap %s %s)", CqList(bal), CqList(sup))
+}
+
 // ---------------------------------------------------------------- the driver
 
 type blockDesc struct {
@@ -1239,9 +1501,9 @@ func TestDriverBlocks(t *testing.T) {
 	nBlocks := EnvInt("VERIF_N", 120)
 	rng := NewRng(seed)
 	side := NewSidecar("blocks", seed,
-		"case = one block of 0-10 generated transactions (15 kinds incl. destruction scripts x fee variants x gas limits x values x 10 malformations + replays of admitted bytes, consensus max_gas varied) executed by FinalizeBlock/Commit on the real app, "+
-			"with the committed pre/post state of the block's address universe; non-trivial = block with >= 2 Ethereum txs that passed the ante handler and >= 2 distinct outcome classes; distinct by (kinds, malformations, classes, gas limits)")
-	cases := NewCases(dir, "From Evm Require Import TxPipe TxPipeExt CorrTxPipe.", "tp_mismatches")
+		"case = one block of 0-10 generated transactions (15 kinds incl. destruction scripts and Cosmos bank sends of 1-3 other denominations to wallets / contracts / coming CREATE and CREATE2 addresses x fee variants x gas limits x values x 10 malformations + replays of admitted bytes, consensus max_gas varied; other denominations minted to addresses of the coming block between blocks) executed by FinalizeBlock/Commit on the real app, "+
+			"with the committed pre/post state (every denomination) of the block's address universe; non-trivial = block with >= 2 Ethereum txs that passed the ante handler and >= 2 distinct outcome classes; distinct by (kinds, malformations, classes, gas limits)")
+	cases := NewCases(dir, "From Evm Require Import TxPipe TxPipeExt TxPipeDenom CorrTxPipe.", "tp_mismatches")
 	w := newWorld(t)
 	c := w.c
 	fc := feeCollector()
@@ -1290,6 +1552,9 @@ func TestDriverBlocks(t *testing.T) {
 		}
 		nTx := r.Intn(11)
 		gen := w.genBlock(r, nTx)
+		if r.Chance(60) {
+			w.prefund(r, gen, side.Count)
+		}
 
 		// the block's address universe
 		var uni []common.Address
@@ -1335,6 +1600,7 @@ func TestDriverBlocks(t *testing.T) {
 		st := newRefState(w.factory)
 		for _, a := range uni {
 			st.bal[a] = pre.bal[a]
+			st.fbal[a] = pre.fbal[a]
 			if pre.code[a] == w.kHash {
 				st.isK[a] = true
 			}
@@ -1345,6 +1611,39 @@ func TestDriverBlocks(t *testing.T) {
 			expSeq[a] = pre.seq[a]
 		}
 		burnTotal := big.NewInt(0)
+		burnOther := coins{}
+		// C04 for the other denominations, per transaction: bank-event flows of every account and the net of mint and
+		// burn events must equal what the reference says (expF: denomination -> account -> expected change)
+		checkOther := func(o *obsTx, expF map[string]map[common.Address]*big.Int, sigPrefix string, desc interface{}) {
+			for _, d := range sortedDenoms(o, expF) {
+				all := map[common.Address]bool{}
+				expBurn := big.NewInt(0)
+				for a, v := range expF[d] {
+					all[a] = true
+					expBurn.Sub(expBurn, v)
+				}
+				for a := range o.fdelta[d] {
+					all[a] = true
+				}
+				var as []common.Address
+				for a := range all {
+					as = append(as, a)
+				}
+				sort.Slice(as, func(i, j int) bool { return as[i].Hex() < as[j].Hex() })
+				for _, a := range as {
+					want, got := zeroIfNil(expF[d][a]), zeroIfNil(o.fdelta[d][a])
+					if want.Cmp(got) != 0 {
+						side.Hit(sigPrefix+"other-denom-balance-change-not-as-expected", fmt.Sprintf("account %s, denomination %s: bank events net %s, expected %s", a.Hex(), d, got, want), desc)
+					}
+				}
+				netBurn := new(big.Int).Sub(o.fburned.get(d), o.fminted.get(d))
+				if netBurn.Sign() < 0 {
+					side.Hit("C04/blocks/tx-increases-supply", fmt.Sprintf("denomination %s: minted %s > burned %s", d, o.fminted.get(d), o.fburned.get(d)), desc)
+				} else if netBurn.Cmp(expBurn) != 0 {
+					side.Hit(sigPrefix+"other-denom-supply-delta-not-equal-destroyed", fmt.Sprintf("denomination %s: net burn %s, balances of the accounts explicitly destroyed %s", d, netBurn, expBurn), desc)
+				}
+			}
+		}
 
 		// ---- observations
 		var items []string
@@ -1352,6 +1651,7 @@ func TestDriverBlocks(t *testing.T) {
 		classes := map[string]bool{}
 		passedAnte := 0
 		blockBloom := ethtypes.Bloom{}
+		failedSeen, logTxsAfterFailed := false, 0
 		cumExpected := int64(0)
 		logExpected := int64(0)
 		idxExpected := int64(0)
@@ -1368,7 +1668,37 @@ func TestDriverBlocks(t *testing.T) {
 					paid = d
 				}
 				inc := paid.Sign() > 0 || tr.Code == 0
-				items = append(items, fmt.Sprintf("ICosmos %s %s %s %s", CqZi(cosmosBlockGas(tr)), CqZi(w.id(g.from)), CqZ(paid), CqBool(inc)))
+				okMsgs := tr.Code == 0 // the messages were executed and committed
+				var sendsCq []string
+				expF := map[string]map[common.Address]*big.Int{}
+				for _, sd := range g.Sends {
+					sendsCq = append(sendsCq, fmt.Sprintf("mkSend %s %s %s %s", CqZi(denomID(sd.Denom)), w.cqID(g.from), w.cqID(sd.to), CqZ(sd.amt)))
+					if okMsgs {
+						if expF[sd.Denom] == nil {
+							expF[sd.Denom] = map[common.Address]*big.Int{}
+						}
+						m := expF[sd.Denom]
+						m[g.from] = new(big.Int).Sub(zeroIfNil(m[g.from]), sd.amt)
+						m[sd.to] = new(big.Int).Add(zeroIfNil(m[sd.to]), sd.amt)
+						st.bankSend(g.from, sd.to, sd.Denom, sd.amt)
+					}
+				}
+				for _, m := range expF {
+					for a, v := range m {
+						if v.Sign() == 0 {
+							delete(m, a)
+						}
+					}
+				}
+				// a bank send moves exactly the declared coins and never changes a supply; a failed transaction moves nothing but the fee
+				checkOther(o, expF, "C04/blocks/cosmos-", desc)
+				if okMsgs {
+					side.Count(fmt.Sprintf("cosmos-send:coins=%d", len(g.Sends)))
+					for _, sd := range g.Sends {
+						side.Count("cosmos-send-to:" + w.addrClass(sd.to, pre))
+					}
+				}
+				items = append(items, fmt.Sprintf("ICosmos %s %s %s %s %s %s", CqZi(cosmosBlockGas(tr)), CqZi(w.id(g.from)), CqZ(paid), CqBool(inc), CqBool(okMsgs), CqList(sendsCq)))
 				side.Count("class:cosmos:" + fmt.Sprint(tr.Code == 0))
 				if tr.Code != 0 {
 					side.Count(fmt.Sprintf("cosmos-rej:%s/%d", tr.Codespace, tr.Code))
@@ -1450,6 +1780,8 @@ func TestDriverBlocks(t *testing.T) {
 			// ---------------- reference effect and expected bank flows of this tx
 			var moves [][2]string
 			burn := big.NewInt(0)
+			expF := map[string]map[common.Address]*big.Int{} // other denominations: expected change per account
+			var createdCq, destroyedCq []string
 			expDelta := map[common.Address]*big.Int{}
 			addExp := func(a common.Address, d *big.Int) {
 				if expDelta[a] == nil {
@@ -1468,10 +1800,35 @@ func TestDriverBlocks(t *testing.T) {
 						st.bal[k] = v
 					}
 					b0 := st.burn
+					fbefore := make(map[common.Address]coins, len(st.fbal))
+					for k, v := range st.fbal {
+						fbefore[k] = v
+					}
 					if !w.applyRef(st, g) {
 						side.Count("ref:inconsistent-with-success")
 					}
 					burn = new(big.Int).Sub(st.burn, b0)
+					// the accounts deleted at the end of the transaction lose what they hold in EVERY denomination:
+					// that is the only way a transaction's execution reaches another denomination
+					for _, a := range st.lastDestroyed {
+						destroyedCq = append(destroyedCq, w.cqID(a))
+						for d, v := range fbefore[a] {
+							if v.Sign() != 0 {
+								if expF[d] == nil {
+									expF[d] = map[common.Address]*big.Int{}
+								}
+								expF[d][a] = new(big.Int).Neg(v)
+								burnOther[d] = new(big.Int).Add(burnOther.get(d), v)
+								side.Count("other-denom:destroyed-with-account:" + d)
+							}
+						}
+					}
+					for _, a := range st.lastCreated {
+						createdCq = append(createdCq, w.cqID(a))
+						if !fbefore[a].isZero() {
+							side.Count("other-denom:carried-over-by-creation:" + w.addrClass(a, pre))
+						}
+					}
 					var ch []common.Address
 					for a, v := range st.bal {
 						if v.Cmp(zeroIfNil(before[a])) != 0 {
@@ -1541,7 +1898,10 @@ func TestDriverBlocks(t *testing.T) {
 				obBloom = cqZs(bloomBits(o.Bloom))
 			}
 			ext := fmt.Sprintf("(mkExt %s %s %s %s %s)", CqZi(w.id(crypto.CreateAddress(g.from, g.nonce))), CqList(lb), rfS, obCA, obBloom)
-			items = append(items, fmt.Sprintf("IEth %s %s %s %s", g.coqT, eo, o.coq(tr.Codespace), ext))
+			items = append(items, fmt.Sprintf("IEth %s %s %s %s (mkDx %s %s)", g.coqT, eo, o.coq(tr.Codespace), ext, CqList(createdCq), CqList(destroyedCq)))
+			// C04, every other denomination, every outcome class: the supply falls by exactly the balances of the accounts the
+			// execution explicitly destroyed, every other account (sender, fee collector, created contracts, ...) keeps its balance
+			checkOther(o, expF, "C04/blocks/", desc)
 
 			// ---------------- direct oracle (property texts), independent of the model
 			checkFlows := func() {
@@ -1630,6 +1990,9 @@ func TestDriverBlocks(t *testing.T) {
 					side.Hit("C13/blocks/log-index-not-consecutive", fmt.Sprintf("first log index %d, expected %d", o.LogIdx, logExpected), desc)
 				}
 				logExpected += o.NLogs
+				if failedSeen && o.NLogs > 0 {
+					logTxsAfterFailed++
+				}
 				if (o.Status == 1) == vmerr {
 					side.Hit("C13/blocks/status-vs-vmerror", "status does not reflect the VM error", desc)
 				}
@@ -1648,6 +2011,9 @@ func TestDriverBlocks(t *testing.T) {
 				if g.scr != nil {
 					side.Count(fmt.Sprintf("script:%s:ops=%d", o.Class, g.scr.size()))
 				}
+				if !vmerr && g.kind == kTransfer && g.value.Sign() == 0 && containsAddr(w.foreignOnly, *g.to) && !st.fbal[*g.to].isZero() && st.get(*g.to).Sign() == 0 {
+					side.Count("reached:zero-value-touch-of-account-holding-only-other-denoms")
+				}
 				if burn.Sign() > 0 {
 					side.Count("burn:positive")
 				}
@@ -1663,6 +2029,7 @@ func TestDriverBlocks(t *testing.T) {
 					side.Hit("C05/blocks/failed-tx-gas-not-full-limit", fmt.Sprintf("consensus gas used %d, limit %d", o.GU, g.limit), desc)
 				}
 				side.Count(fmt.Sprintf("failed:block-gas=%v", blockGas))
+				failedSeen = true
 				cumExpected += int64(g.limit)
 				if o.TxIdx != idxExpected {
 					side.Hit("C13/blocks/tx-index-not-consecutive", fmt.Sprintf("txIndex %d, expected %d", o.TxIdx, idxExpected), desc)
@@ -1709,6 +2076,9 @@ func TestDriverBlocks(t *testing.T) {
 
 		for k, v := range st.stats {
 			side.Histogram["reached:"+k] += v
+		}
+		if logTxsAfterFailed >= 2 {
+			side.Count("reached:two-logging-txs-after-a-receiptless-tx")
 		}
 		// ---------------- block-level oracles
 		bdesc := func(extra map[string]interface{}) map[string]interface{} {
@@ -1757,6 +2127,30 @@ func TestDriverBlocks(t *testing.T) {
 				side.Hit("C04/blocks/supply-increased", fmt.Sprintf("total supply of %s grew from %s to %s over the block", coin.Denom, pre.allSup.AmountOf(coin.Denom), coin.Amount), bdesc(nil))
 			}
 		}
+		for _, d := range otherDenoms { // ... and it decreases only by amounts explicitly destroyed
+			dS := new(big.Int).Sub(post.allSup.AmountOf(d).BigInt(), pre.allSup.AmountOf(d).BigInt())
+			if new(big.Int).Neg(dS).Cmp(burnOther.get(d)) != 0 {
+				side.Hit("C04/blocks/other-denom-block-supply-delta-not-minus-destroyed", fmt.Sprintf("supply of %s changed by %s over the block, balances of explicitly destroyed accounts %s", d, dS, burnOther.get(d)), bdesc(nil))
+			}
+		}
+		for _, coin := range pre.allSup {
+			if denomID(coin.Denom) < 0 && coin.Denom != c.Denom() && !post.allSup.AmountOf(coin.Denom).Equal(coin.Amount) {
+				side.Hit("C04/blocks/other-denom-block-supply-delta-not-minus-destroyed", fmt.Sprintf("supply of %s changed from %s to %s", coin.Denom, coin.Amount, post.allSup.AmountOf(coin.Denom)), bdesc(nil))
+			}
+		}
+		for _, a := range uni {
+			for _, d := range otherDenoms {
+				if got, want := post.fbal[a].get(d), st.fbal[a].get(d); got.Cmp(want) != 0 {
+					side.Hit("C04/blocks/other-denom-post-balance-not-as-expected", fmt.Sprintf("account %s holds %s%s after the block, expected %s", a.Hex(), got, d, want), bdesc(map[string]interface{}{"account": a.Hex()}))
+				}
+			}
+			if !pre.fbal[a].isZero() {
+				side.Count("universe-account-with-other-denoms:" + w.addrClass(a, pre))
+			}
+		}
+		if !post.fbal[w.evmModule].isZero() || !post.fbal[fc].isZero() {
+			side.Hit("C04/blocks/evm-module-balance-nonzero", "the EVM module account or the fee collector holds another denomination after the block", bdesc(nil))
+		}
 		if post.bal[w.evmModule].Sign() != 0 {
 			side.Hit("C04/blocks/evm-module-balance-nonzero", fmt.Sprintf("EVM module account holds %s after the block", post.bal[w.evmModule]), bdesc(nil))
 		}
@@ -1779,6 +2173,27 @@ func TestDriverBlocks(t *testing.T) {
 			}
 		}
 
+		{ // accounts that hold other denominations only
+			for _, a := range uni {
+				_, hasCode := post.code[a]
+				if !post.fbal[a].isZero() && post.bal[a].Sign() == 0 && !hasCode && post.seq[a] == 0 && !w.eoa[a] && a != fc && a != w.evmModule && !containsAddr(w.foreignOnly, a) {
+					w.foreignOnly = append(w.foreignOnly, a)
+				}
+			}
+			keep := w.foreignOnly[:0:0]
+			for _, a := range w.foreignOnly { // still so?
+				_, hasCode := post.code[a]
+				if f, ok := post.fbal[a]; ok && (f.isZero() || post.bal[a].Sign() != 0 || hasCode || post.seq[a] != 0) {
+					continue
+				}
+				keep = append(keep, a)
+			}
+			if len(keep) > 10 {
+				keep = keep[len(keep)-10:]
+			}
+			w.foreignOnly = keep
+			side.Count(fmt.Sprintf("accounts-holding-only-other-denoms:%d", min(len(keep), 10)))
+		}
 		{ // K instances: keep the living ones, a few destroyed ones, add the new ones
 			var keep []common.Address
 			dead := 0
@@ -1817,7 +2232,7 @@ func TestDriverBlocks(t *testing.T) {
 			}
 			side.Count(fmt.Sprintf("K-alive:%d", min(alive, 6)))
 		}
-		item := fmt.Sprintf("(mkBlock %s %s %s %s %s)", w.snapCoq(pre, false), CqZi(w.maxGas), CqList(items), w.snapCoq(post, true), obsBlockBloom)
+		item := fmt.Sprintf("(mkBlock %s %s %s %s %s %s %s)", w.snapCoq(pre, false), CqZi(w.maxGas), CqList(items), w.snapCoq(post, true), obsBlockBloom, w.dsnapCoq(pre, false), w.dsnapCoq(post, true))
 		cases.Add(item)
 		sorted := append([]string{}, obsStr...)
 		sort.Strings(sorted)
@@ -1832,6 +2247,51 @@ func TestDriverBlocks(t *testing.T) {
 	}
 	cases.Write(t, 25)
 	side.Write(t, dir)
+}
+
+// denominations named by the observation or the expectation, sorted
+func sortedDenoms(o *obsTx, expF map[string]map[common.Address]*big.Int) []string {
+	set := map[string]bool{}
+	for d := range expF {
+		set[d] = true
+	}
+	for d := range o.fdelta {
+		set[d] = true
+	}
+	for d := range o.fminted {
+		set[d] = true
+	}
+	for d := range o.fburned {
+		set[d] = true
+	}
+	var out []string
+	for d := range set {
+		out = append(out, d)
+	}
+	sort.Strings(out)
+	return out
+}
+
+// coarse class of an address for the histogram
+func (w *world) addrClass(a common.Address, pre *snap) string {
+	switch {
+	case w.eoa[a]:
+		return "wallet"
+	case a == feeCollector() || a == w.evmModule:
+		return "module-account"
+	case pre.code[a] == w.kHash:
+		return "K-alive"
+	case w.saltOf(a) >= 0:
+		return "create2-address-without-code"
+	case containsAddr(w.ks, a):
+		return "K-destroyed"
+	case containsAddr(w.bens, a):
+		return "beneficiary"
+	case len(pre.code[a].Bytes()) > 0 && pre.code[a] != (common.Hash{}):
+		return "other-contract"
+	default:
+		return "codeless-address"
+	}
 }
 
 func zeroIfNil(x *big.Int) *big.Int {
